@@ -371,13 +371,15 @@ def run(ctx):
     ctx.cov["distinct_nontrivial"] = len(set(str(s) for s in shapes if s not in ('I', 'B0', 'B1')))
     ctx.cov["rule"] = ("expression trees whose leaves are calls to logging functions, %d per program; all shapes of depth <= %s over "
                        "{+,*,-, 2-arg call, 4-arg call, 0-arg call, recursion, &&, ||, !, <, ==}; non-trivial = distinct non-leaf shape; "
-                       "extended stream (list/map literals, indexing, method calls) against an independent Python oracle" % (per, "1 exhaustively, 2-3 sampled" if ctx.quick() else "2 exhaustively, 3 sampled"))
+                       "extended stream (list/map literals, indexing, method calls; compound assignments to variables, elements, map values, fields) against an independent Python oracle" % (per, "1 exhaustively, 2-3 sampled" if ctx.quick() else "2 exhaustively, 3 sampled"))
     ctx.cov["exhaustive"] = True
     ctx.cov["statistics"] = st
     ctx.cov["extended_cases"] = n_ext
     ctx.cov["traces_validated_against_impl"] = st["t2_agree"]
     ctx.sample({"program": projs[1]["files"]["main.ms"][-700:]})
     ctx.cov["trusted_base"] = ["Coq 8.16.1 kernel; no axioms", "extraction + drivers", "hooks H1/H3", "Python oracle for the extended stream"]
-    ctx.assumptions = ["Lang/Eval.v (left-to-right, once, short-circuit) is the specification", "list/map/method-call operands are outside the Coq models (Python oracle only)"]
+    ctx.assumptions = ["Lang/Eval.v (left-to-right, once, short-circuit) is the specification", "list/map/method-call operands are outside the Coq models (Python oracle only)",
+                       "compound assignments: Lang/Eval.v evaluates the right operand of `x op= e` before reading x, as the implementation does; the order "
+                       "the property demands for them is stated by the Python oracle of opassign_cases only (known finding order:opassign-right-operand-first:*)"]
     spec_failed = any(v[0].startswith(("semantics:", "order:")) for v in ctx.viol)
     core.proof_or_search(ctx, ok, ["C15 obligations"], spec_failed)
